@@ -184,6 +184,7 @@ type Scenario struct {
 	ListenerCloseErr bool
 	NoWaitServe      bool        // start the actors without waiting for Serve to register its listener
 	YieldPark        Dur         // park this long at the VerifYield points of Server.Close/Shutdown (0 = hook off)
+	YieldPoints      []string    // the VerifYield points that park in this run (nil with YieldPark > 0: the two server points)
 	ServeDelay       Dur         // Serve is called this long after the start (with NoWaitServe: a Close may come first)
 	LogPark          Dur         // Server.ErrorLog is slow: every Printf parks this long (0 = instant)
 	X                interface{} // property-specific expectation data
